@@ -88,6 +88,11 @@ PointwiseBest == acc = BestOf(Done)
 OrderIndependent == done = DOMAIN runs => acc = BestOf({runs[i] : i \in DOMAIN runs})
 \* aggregating a run that has already arrived changes nothing
 Idempotent == \A i \in done : AggregateRun(acc, runs[i]) = acc
+\* The aggregate also keeps one entry per test (TestCoverage.Tests[label]): it is that run's own coverage and no later
+\* merge may change it (the parsers store the run's file map itself there, so a merge that writes into the vectors it
+\* was given makes the per-test report depend on the completion order). The runs are constants of a behaviour here;
+\* the binding compares the implementation's entries with PerTest after every aggregation order it runs.
+PerTest(i) == [f \in {g \in Files : runs[i][g] # Absent} |-> runs[i][f]]
 \* for SpecGrow (no Aggregate steps): fold in index order and compare
 RECURSIVE Fold(_, _)
 Fold(a, k) == IF k > Len(runs) THEN a ELSE Fold(AggregateRun(a, runs[k]), k + 1)
